@@ -242,10 +242,13 @@ def k3(ctx):
                           "in %s the permutation paired with a proof oriented %s -> %s is %s; by the invariant (proof proves c[id] = c[elem]) it must be %s.m.compose(&%s.m.inverse()). The two coincide only for involutions, so every 3-cycle symmetry gets a proof of the inverse permutation" % (
                               C.short(b.id), s_[1], t_[1], role_str(el), t_[1], s_[1]), where_of(b, bi, s.get("line")))
     # (2) self-symmetry derivation: (a, b, proof) = pc_congruence(..)  proves a -> b
+    pol_ = mir.default_inline_policy(crate)
     for b0 in crate.fns():
-        if b0.id in leaders or b0.id in helper_ids:
+        if b0.id in leaders or b0.id in helper_ids or b0.id in pol_:
             continue
-        b = mir.accessor_view(crate, b0)       # a `mk_proven_perm(elem, proof)` constructor helper is looked through
+        # a `mk_proven_perm(elem, proof)` constructor helper is looked through, and so is a single-use helper holding the tail of
+        # the deriver's loop (add_self_symmetry)
+        b = mir.accessor_view(crate, mir.inline_view(crate, b0, keep=tuple(sorted(set(leaders) | set(helper_ids)))))
         for bi, si, s in b.statements():
             rv = s["rv"] if s["k"] == "assign" else None
             if rv and rv["k"] == "agg" and str(rv.get("adt", "")).endswith("perm::ProvenPerm") and not (b.file or "").endswith("wrapper/perm.rs"):
